@@ -69,3 +69,30 @@ func VerifLcdSwitch() {
 	}
 	vReach("end")
 }
+
+// bounded cross-check: the first 240 cycles after switch-on (power-up, and an off/on switch from any state),
+// cycle count concrete: line 0 lasts 112 cycles (mode 2 for 20, mode 3 for 41, mode 0 for 51), then 114 per line
+func VerifLcdFirstLines() {
+	l := newVerifLCD()
+	p := l.p
+	if vCfg("switch") != 0 {
+		vHavoc("ppu", p)
+		vHavoc("oam", l.o)
+		vAssume(lcdInv(p))
+		p.WriteLCDC(vU8("off") & 0x7f)
+		p.WriteLCDC(vU8("on") | 0x80)
+	}
+	vAssert("start-LY", p.ReadLY() == 0)
+	vAssert("start-mode", p.ReadSTAT()&3 == 2)
+	for k := 1; k <= 240; k++ {
+		p.EndMachineCycle()
+		// frame index consumed by the k-th call since switch-on: the h-blank of line 0 is two cycles short
+		t := k - 1
+		if k >= 63 {
+			t = k + 1
+		}
+		vAsserti("LY@", k, int(p.ReadLY()) == t/114)
+		vAsserti("mode@", k, p.ReadSTAT()&3 == refMode(t))
+	}
+	vReach("end")
+}
